@@ -71,13 +71,35 @@ def run(ck):
                     seen.add(f)
                     fs.append(f)
     cases = [(f, 'ees') for f in fs]
+    # caller state: the same command started with descriptors 0, 1, 2 closed must do exactly the same to the file (differential)
+    nplain = len(cases)
+    sub = fs if ck.tier == 'thorough' else [f for f in fs if f is None or f.count(b'\n') + (0 if f.endswith(b'\n') or not f else 1) <= 2]
+    cases += [(f, 'EeS') for f in sub]
     res = C.run_batch(ck, cli, hcli, LIB, cases, 'c18')
     evals = 0
     outcomes = set()
     samples = []
     if len(res) != len(cases):
         ck.violation('C18:harness:batch_incomplete', {'got': len(res), 'want': len(cases)})
-    for (f, _), steps in zip(cases, res):
+    plain_first = {}
+    for idx, ((f, seq), steps) in enumerate(zip(cases, res)):
+        if seq == 'EeS':
+            evals += 3
+            if len(steps) != 3:
+                ck.violation('C18:harness:steps', {'file': repr(f)})
+                continue
+            want = plain_first.get(f)
+            got = (steps[0][0], steps[0][1])
+            outcomes.add(('fds_closed', got[0], got[1] == f, want == got))
+            if want is not None and got != want:
+                ck.violation('C18:enable_depends_on_std_descriptors:file=%r' % ((f or b'(absent)').replace(LIB, b'LIB')[:80],),
+                             {'file': None if f is None else f.decode('latin-1'), 'with_fds_0_1_2_closed': {'rc': got[0], 'after': None if got[1] is None else got[1].decode('latin-1')},
+                              'normally': {'rc': want[0], 'after': None if want[1] is None else want[1].decode('latin-1')}})
+            if steps[2][1] != steps[1][1]:
+                ck.violation('C18:status_modified_file:fds_closed:file=%r' % ((f or b'(absent)').replace(LIB, b'LIB')[:80],), {'file': repr(f)})
+            continue
+        if len(steps) == 3:
+            plain_first[f] = (steps[0][0], steps[0][1])
         evals += 3
         if len(steps) != 3:
             ck.violation('C18:harness:steps', {'file': repr(f)})
